@@ -5,10 +5,10 @@ import os
 
 ROOT = os.path.dirname(os.path.dirname(os.path.abspath(__file__)))
 
-TB = 'trusts z3 (sampled queries re-decided by cvc5 and z3 4.8.12 in the thorough tier), the symx operator semantics and fork-and-merge shell (validated each run against concrete simulation on seeded inputs), and the reference written in the check module'
+TB = 'trusts z3 (sampled queries re-decided by the cvc5 1.0.3 and z3 4.8.12 binaries in both tiers), the symx operator semantics and fork-and-merge shell (validated each run against concrete simulation on seeded inputs), and the reference written in the check module'
 
 CHECKS = {
-    'C04': ('model_checking', 'bounded, solver-backed: for every enumerated netlist and EVERY instantiation order the real sorter/propagateAll/clk run on symbolic inputs and the solver proves each leaf output equals its recomputation (fixpoint) and each wire equals the canonical-order term, for all input values; cyclic netlists are executed concretely (no data)',
+    'C04': ('model_checking', 'bounded, solver-backed: for every enumerated netlist and EVERY instantiation order the real sorter/propagateAll/clk run on symbolic inputs and the solver proves each leaf output equals its recomputation (fixpoint) and each wire equals the canonical-order term, for all input values; cyclic netlists are executed concretely (no data); where a netlist cannot be run symbolically (a leaf writing a wire registered as its input) the two clauses run on seeded concrete inputs and are named so',
             'SMT-based symbolic execution of the real simulator (z3 QF_BV) per construction order'),
     'C05': ('model_checking', 'bounded, solver-backed: one real clock edge from a fully symbolic pre-state for every permutation of the evaluation order; post-state terms proved equal for all states/inputs (1-step induction covers all histories); per-class path-complete audit of clock()',
             'SMT-based symbolic execution of the real clock()/_clk_cycle (z3 QF_BV), all evaluation orders'),
@@ -30,13 +30,13 @@ CHECKS = {
             'SMT-based symbolic execution of Waveform.clock/get_wavedrom (z3), path-complete'),
     'C16': ('model_checking', 'bounded, solver-backed: one real clock step of the adapters from a symbolic pre-state coupled to a ghost monitor (induction) plus BMC from power-up with fully symbolic schedules',
             'SMT-based symbolic execution of the real adapters (z3 QF_BV); 1-step induction with ghost state + BMC'),
-    'C17': ('model_checking', 'bounded, solver-backed: real serializer+clock recovery+deserializer on symbolic bytes (and symbolic valid/ready in the thorough tier) over a bounded horizon; delivered terms proved equal to the sent symbols',
+    'C17': ('model_checking', 'bounded, solver-backed: real serializer+clock recovery+deserializer on symbolic bytes (and symbolic valid/ready in the thorough tier) over a bounded horizon; delivered terms proved equal to the sent symbols; ratios 4..16 and single large ratios (1000; thorough 100..5208)',
             'SMT-based symbolic execution of the real UART link (z3 QF_BV), BMC'),
-    'C20': ('model_checking', 'bounded, solver-backed: real CMDRequest/CMDResponse on symbolic hex digits, values and handshake bits over a bounded horizon',
+    'C20': ('model_checking', 'bounded, solver-backed: real CMDRequest/CMDResponse on symbolic hex digits, values and handshake bits over a bounded horizon; K<n>; for every n by decode-to-burst plus induction on the burst counter; a concrete per-digit sweep replaces the symbolic run only where the handshake turns out to depend on the digit',
             'SMT-based symbolic execution of the real codec FSMs (z3 QF_BV), BMC'),
-    'C12': ('model_checking', 'bounded, solver-backed: helper functions executed on symbolic integers/mantissas with exponent fields enumerated; round trips and exact arithmetic proved for all values inside each case',
+    'C12': ('model_checking', 'bounded, solver-backed: helper functions executed on symbolic integers/mantissas with exponent fields enumerated; round trips and exact arithmetic proved for all values inside each case; boundary patterns of every exponent field are additionally pushed through struct and FPNum.to_float with the real math module (concrete, Decimal/log2 are outside the exact float model)',
             'SMT-based symbolic execution of the real helper functions (z3 QF_BV), exponent cases enumerated'),
-    'C11': ('model_checking', 'bounded: path-complete symbolic execution of the construction API with symbolic selectors (names, wiring, fault position); solver decides path feasibility',
+    'C11': ('model_checking', 'bounded: path-complete symbolic execution of the construction API with symbolic selectors (names, wiring, fault position); solver decides path feasibility; the same obligations once more in a fresh interpreter (cold class-level caches), executed concretely',
             'symbolic execution with solver-decided selectors (z3), exhaustive within the template bounds'),
     'C01': ('translation_validation', 'per design: the Verilog text emitted by the real generator is elaborated by an IEEE-1364 subset front end into a transition system and proved equivalent (power-up, BMC, 1-step induction) to the terms obtained by symbolically executing the real simulator, for all inputs/states',
             'SMT equivalence checking (z3 QF_BV) between emitted Verilog (own front end) and symbolic execution of the real simulator'),
